@@ -352,6 +352,85 @@ def match_use_guarded(fn, use, name, reaching=None):
     return False
 
 
+def scan_loop_of(f):
+    """the `while <text>:` loop of a line scanner, <text> being the function's line argument or a local copy of it"""
+    params = {a.arg for a in f.args.args}
+    copies = {s.targets[0].id for s in walk_func(f) if isinstance(s, ast.Assign) and len(s.targets) == 1 and isinstance(s.targets[0], ast.Name) and isinstance(s.value, ast.Name) and s.value.id in params}
+    for w in walk_func(f):
+        if isinstance(w, ast.While) and isinstance(w.test, ast.Name) and w.test.id in params | copies:
+            return w
+    return None
+
+
+def lexer_side_scanner(db):
+    """the function that decides, for adjust_whitespace, whether a line begins inside a multi-line string / continuation:
+    the local function of adjust_whitespace (whatever it is called) that walks along its line argument in a `while <line>:` loop"""
+    aw = db.func("pygen.adjust_whitespace")
+    for f in ast.walk(aw):
+        if isinstance(f, ast.FunctionDef) and f is not aw:
+            if scan_loop_of(f) is not None:
+                return f
+    raise AnalysisError("pygen.adjust_whitespace: the line scanner (a local function with a `while line:` loop) was not found (anchor)")
+
+
+def definitely_match_at(fn, use, name):
+    """structured forward analysis: on every path from the last assignment of `name` to `use`, a test has established that
+    `name` is a match (branches that leave the block do not count at the join)"""
+    result = []
+
+    def assigns(node):
+        return any(isinstance(n, ast.Name) and n.id == name and isinstance(n.ctx, (ast.Store, ast.Del)) for n in ast.walk(node))
+
+    def flow(stmts, k):
+        for s in stmts:
+            if k is None:
+                return None
+            if isinstance(s, ast.If):
+                if contains(s.test, use):
+                    result.append(k)
+                pol = _test_polarity(s.test, name)
+                kt = True if pol == "pos" else k
+                kf = True if pol == "neg" else k
+                a, b = flow(s.body, kt), flow(s.orelse, kf)
+                k = b if a is None else a if b is None else (a and b)
+                continue
+            if isinstance(s, (ast.For, ast.While)):
+                if contains(s.iter if isinstance(s, ast.For) else s.test, use):
+                    result.append(k)
+                inner = k and not assigns(s)
+                flow(s.body, inner)
+                k = inner
+                if s.orelse:
+                    k = flow(s.orelse, k)
+                continue
+            if isinstance(s, ast.Try):
+                a = flow(s.body, k)
+                kh = k and not assigns(ast.Module(body=s.body, type_ignores=[]))
+                outs = [a] if not s.orelse else [flow(s.orelse, a) if a is not None else None]
+                for h in s.handlers:
+                    outs.append(flow(h.body, kh))
+                outs = [o for o in outs if o is not None]
+                k = all(outs) if outs else None
+                if s.finalbody:
+                    k2 = flow(s.finalbody, bool(k) and kh)
+                    k = k2 if k is not None else None
+                continue
+            if isinstance(s, ast.With):
+                k = flow(s.body, k)
+                continue
+            if isinstance(s, (ast.FunctionDef, ast.AsyncFunctionDef, ast.ClassDef)):
+                continue
+            if contains(s, use):
+                result.append(k)
+            if isinstance(s, (ast.Return, ast.Raise, ast.Continue, ast.Break)):
+                return None
+            if assigns(s):
+                k = False
+        return k
+    flow(fn.body, False)
+    return bool(result) and all(result)
+
+
 def unguarded_match_uses(db, modnames):
     """(function qualname, use node, name) for uses of a regex match result that may be None; also returns the number of uses seen"""
     from ..engine import flow
@@ -369,7 +448,7 @@ def unguarded_match_uses(db, modnames):
                 if isinstance(u, ast.Attribute) and isinstance(u.value, ast.Name) and u.value.id in mv and u.attr in _MATCH_USES:
                     n += 1
                     rr = rr or flow.Reaching(fn)
-                    if not match_use_guarded(fn, u, u.value.id, rr):
+                    if not match_use_guarded(fn, u, u.value.id, rr) and not definitely_match_at(fn, u, u.value.id):
                         out.append((q, u, u.value.id))
     return out, n
 
